@@ -4,6 +4,7 @@ import os
 import shutil
 import struct
 import tempfile
+import zlib
 
 from ..core import Tally  # noqa: F401
 from .. import s2c, tlc
@@ -116,14 +117,28 @@ class Ctx:
     def observe(self, f):
         subs, footer, wellformed = self.parse(f)
         return {"subs": subs, "footer": footer, "wellformed": wellformed, "total": f.elements_added,
-                "chk": {k: bool(f.check(self.rk(k))) for k in self.keys}, "in": {k: (self.rk(k) in f) for k in self.keys},
+                "chk": {k: bool(f.check_alt(self.hashes_of(f, self.rk(k))) if self.alt(k) else f.check(self.rk(k))) for k in self.keys}, "in": {k: (self.rk(k) in f) for k in self.keys},
                 "expansions": f.expansions, "qsize": f.current_queue_size if self.rot else len(subs)}
+
+    def alt(self, o):
+        """one model action, two entry points of the code (add / add_alt, check / check_alt), chosen deterministically per edge"""
+        self.opno = getattr(self, "opno", 0) + 1
+        return bool(zlib.crc32(repr((self.opno, o)).encode()) & 1)
+
+    def hashes_of(self, f, key):
+        """the structure has no hashes() of its own: a caller gets them from a Bloom filter of the same parameters"""
+        from probables import BloomFilter
+
+        return BloomFilter(est_elements=self.est, false_positive_rate=self.fpr, hash_function=f.hash_function).hashes(key)
 
     def step(self, f, hf, o, st):
         """apply one op; st = harness-side observational bookkeeping from the code's own answers"""
         if o[0] == "add":
             pre = bool(f.check(self.rk(o[1])))
-            f.add(self.rk(o[1]), bool(o[2]))
+            if self.alt(o):
+                f.add_alt(self.hashes_of(f, self.rk(o[1])), bool(o[2]))
+            else:
+                f.add(self.rk(o[1]), bool(o[2]))
             st["calls"] += 1
             if o[2] or not pre:
                 st["eff"] += 1
@@ -154,6 +169,7 @@ class Ctx:
             hf = None if self.strategy == "fnv" else strategy_fn(self.strategy)
         f = self.new(hf)
         b0 = self.new(hf)
+        self.opno = 0
         st = {"calls": 0, "eff": 0, "ins": {k: 0 for k in self.keys}, "man": {k: False for k in self.keys}, "manual": False, "pre": None}
         try:
             for op in hist:
